@@ -411,7 +411,7 @@ impl Check for C12 {
     }
     fn default_runs(&self, tier: Tier) -> u64 {
         match tier {
-            Tier::Quick => 2000,
+            Tier::Quick => 4100,
             Tier::Thorough => 40000,
         }
     }
